@@ -67,6 +67,9 @@ META = {
                 'SQLite executes the logged INSERT/UPDATE/DELETE statements as written'],
     'modelled': ['validation is abstracted to {int, None, rejected value} on IntCol columns',
                  'classes without joins/dependents (destroySelf cascade paths belong to C12/C06)',
+                 "a RowCreateSignal listener setting kwargs['connection'] (12% of the plain cases): the model has one table per class "
+                 'and treats it as an observing listener; the harness reads the table of, and fetches through, the connection the '
+                 'listener chose, so a row stored elsewhere is a diff and a stored-row oracle failure',
                  'listener lifetime: a listener registered with weak=True is kept alive by the program, one registered with '
                  'weak=False by the registration alone (30% of the generated listeners, plain classes and chain levels; the harness '
                  'drops its own reference); the model knows live listeners only',
@@ -112,6 +115,7 @@ def env():
 
     conn = LogConn(':memory:')
     _env['LogConn'] = LogConn
+    _env['conn2'] = LogConn(':memory:')      # a second database: where a RowCreateSignal listener may route new rows
     sigmap = {'c': events.RowCreateSignal, 'C': events.RowCreatedSignal, 'u': events.RowUpdateSignal,
               'U': events.RowUpdatedSignal, 'd': events.RowDestroySignal, 'D': events.RowDestroyedSignal}
     _env.update(conn=conn, sigmap=sigmap, events=events)
@@ -144,6 +148,8 @@ def enc_act(act):
         return 'd.%d' % act[1]
     if act[0] == 'x':
         return 'x'
+    if act[0] == 'k':
+        return 'o'          # routing the row to another connection: for the model (one table) an observing listener
     return 'p.%d' % act[1]
 
 
@@ -258,6 +264,11 @@ def renew_conn():
         except Exception:
             pass
         e['conn'] = e['LogConn'](':memory:')
+        try:
+            e['conn2'].close()
+        except Exception:
+            pass
+        e['conn2'] = e['LogConn'](':memory:')
 
 
 def make_class(lazy, cache_values=True):
@@ -278,7 +289,7 @@ def make_class(lazy, cache_values=True):
     return cls
 
 
-def make_listener(sink, idx, sig, act, label=None, prefix='', spawn=None):
+def make_listener(sink, idx, sig, act, label=None, prefix='', spawn=None, route=None):
     """returns the receiver; it logs `e<sig><idx>@<id>[kw]` and performs `act` when applicable
     (`spawn`: callable creating a row of another class, for act `x` and callbacks numbered >= 1000)"""
     def rec(inst, *args):
@@ -286,7 +297,7 @@ def make_listener(sink, idx, sig, act, label=None, prefix='', spawn=None):
         tag = prefix + 'e%s%s@%s' % (sig, idx if label is None else label(inst, idx), '-' if oid is None else oid)
         if label is None:
             if sig in HAS_KW:
-                tag += '[%s]' % enc_kw({keyof(k): v for k, v in args[0].items()})
+                tag += '[%s]' % enc_kw({keyof(k): v for k, v in args[0].items() if k != 'connection'})
             else:
                 tag += '~'
         sink.append(tag)
@@ -294,6 +305,9 @@ def make_listener(sink, idx, sig, act, label=None, prefix='', spawn=None):
             args[0][colname(act[1])] = act[2]
         elif act[0] == 'd' and sig in HAS_KW:
             args[0].pop(colname(act[1]), None)
+        elif act[0] == 'k':
+            if sig == 'c' and route is not None:
+                args[0]['connection'] = route       # kwargs['connection'] = <other connection>: the row goes there
         elif act[0] == 'x':
             if spawn is not None:
                 spawn()
@@ -308,8 +322,8 @@ def make_listener(sink, idx, sig, act, label=None, prefix='', spawn=None):
     return rec
 
 
-def raw_table(cls):
-    conn = cls._connection
+def raw_table(cls, conn=None):
+    conn = conn or cls._connection
     rows = conn.queryAll('SELECT id, %s FROM %s ORDER BY id' % (', '.join(colname(k) for k in range(NCOLS)),
                                                                   cls.sqlmeta.table))
     return [(r[0], list(r[1:])) for r in rows]
@@ -337,9 +351,15 @@ def run_plain(case):
         f = make_listener(sink, idx, sig, act, prefix='b:')
         keep.append(f)
         events.listen(f, bcls, e['sigmap'][sig])
+    # a RowCreateSignal listener may set kwargs['connection']: every row of the class then lives in the second database
+    routed = any(sig == 'c' and act[0] == 'k' for sig, act in case['listeners'])
+    conn2 = e['conn2']
+    dconn = conn2 if routed else None
+    if routed:
+        cls.createTable(connection=conn2)
     strong = set(case.get('strong') or [])
     for idx, (sig, act) in enumerate(case['listeners']):
-        f = make_listener(sink, idx, sig, act, spawn=bcls)
+        f = make_listener(sink, idx, sig, act, spawn=bcls, route=conn2)
         if idx in strong:
             # registered with weak=False and referenced by nobody else (the closure-at-the-call-site style that
             # weak=False exists for): the registration itself must keep the listener alive
@@ -356,10 +376,11 @@ def run_plain(case):
     objs = []
     results = []
     conn.verif_sink = sink
+    conn2.verif_sink = sink
     try:
         for n, op in enumerate(case['ops']):
             del sink[:]
-            before = raw_table(cls)
+            before = raw_table(cls, dconn)
             out = 'ok'
             k = op[0]
             h = op[1] if k not in ('C', 'L') else None
@@ -390,12 +411,13 @@ def run_plain(case):
                     pending = any(getattr(o, '_SO_createValues', None) for o in objs)
                     if not pending:
                         conn.cache.clear()          # force real fetches from the database
+                        conn2.cache.clear()
                     if k == 'F':
-                        o = cls.get(oid)
+                        o = cls.get(oid, connection=dconn) if routed else cls.get(oid)
                         if not pending:
                             objs[h] = o
                     else:
-                        got = list(cls.select())
+                        got = list(cls.select(connection=dconn)) if routed else list(cls.select())
                         if not pending:
                             byid = dict((o.id, o) for o in got)
                             for i, o in enumerate(objs):
@@ -414,10 +436,11 @@ def run_plain(case):
                 out = exc_out(ex)
                 conn.verif_sink = sink
             entries = [x if isinstance(x, str) else fmt_plain_sql(x[1], x[2], btable) for x in sink]
-            results.append({'out': out, 'entries': entries, 'table': raw_table(cls), 'before': before, 'id': oid,
+            results.append({'out': out, 'entries': entries, 'table': raw_table(cls, dconn), 'before': before, 'id': oid,
                             'bcount': len(raw_table(bcls))})
     finally:
         conn.verif_sink = None
+        conn2.verif_sink = None
     ok_by = (len(bysink) % 6 == 0) and all(x.startswith('e') for x in bysink)
     return results, ok_by, bysink
 
@@ -807,6 +830,9 @@ def gen_plain(rng, maxops):
         else:
             ops.append(('L',))
     # sqlmeta.cacheValues = False (eager and lazy): nothing kept on the instance, the events must be the same
+    if rng.random() < 0.12:
+        # a RowCreateSignal listener that routes the new row to another connection (kwargs['connection'] = ...)
+        listeners.insert(rng.randint(0, len(listeners)), ('c', ('k',)))
     # some listeners are registered with weak=False and kept alive by that registration alone
     strong = [i for i in range(len(listeners)) if rng.random() < 0.3]
     return {'kind': 'P', 'lazy': lazy, 'cv': rng.random() >= 0.3, 'listeners': listeners, 'ops': ops,
